@@ -30,9 +30,22 @@ def gen_copy_case(tier, seed, k):
         L.append("set_param p0 5 %d" % rnd.choice([7, 1234, 3000]))
     if rnd.random() < 0.3:
         L.append("set_param_num p0 6 %d" % rnd.choice([5, 100]))
-    if rnd.random() < 0.5 and m.nrows:
+    lim = rnd.random() < 0.5
+    if lim:
+        # objective limits (stop rule of the dual simplex): part of the parameters a copy has to carry *and* obey
+        L.append("set_param_num p0 %d %d/7" % (8 if m.objsense == model.MIN else 9, rnd.randint(-300, 300)))
+        if rnd.random() < 0.3:
+            L.append("set_param_num p0 %d %d/7" % (9 if m.objsense == model.MIN else 8, rnd.randint(-300, 300)))
+    presolved = rnd.random() < (0.2 if lim else 0.5) and m.nrows
+    if presolved:
         L.append(rnd.choice(SOLVES) % "p0")
     L += ["copy p0 p1 thecopy", "dumpx p0", "dumpx p1", "storecheck p1"]
+    twins = []
+    if not presolved and m.nrows and rnd.random() < 0.8:
+        # original and copy, both unsolved, are given the same solve: same status and value expected
+        sv = rnd.choice(["opt_dual %s", "opt_dual %s", "opt_primal %s"])
+        twins.append(len(L))
+        L += [sv % "p0", "dumpsol p0", sv % "p1", "dumpsol p1"]
     gm = {"p0": m, "p1": m.clone()}
     nms = {"p0": gen_hist.Namer(), "p1": gen_hist.Namer()}
     nms["p1"].r = nms["p1"].c = 5000
@@ -69,7 +82,7 @@ def gen_copy_case(tier, seed, k):
             L.append("dump %s" % a)
     for a in sorted(alive):
         L += ["dumpx %s" % a, "storecheck %s" % a]
-    return run.Case("C16-copy-%d" % k, L, dict(kind="copy"))
+    return run.Case("C16-copy-%d" % k, L, dict(kind="copy", twins=twins))
 
 
 def gen_conv_case(tier, seed, k):
@@ -102,9 +115,27 @@ def judge(case, res):
     if res.timeout:
         return [], {"watchdog_inconclusive": 1}
     last = {}
+    twins = set((case.meta or {}).get("twins", []))
+    tw = {}
     try:
         for ln, cmd, slot, op, ev, models in vscript.walk(case.script, res.events):
             m = models.get(slot)
+            for t0 in twins:
+                if ln in (t0, t0 + 2):
+                    tw[(t0, slot, "solve")] = ev
+                elif ln in (t0 + 1, t0 + 3):
+                    tw[(t0, slot, "sol")] = ev
+                if ln == t0 + 3:
+                    s0, s1 = tw.get((t0, "p0", "solve"), {}), tw.get((t0, "p1", "solve"), {})
+                    d0, d1 = tw.get((t0, "p0", "sol"), {}), tw.get((t0, "p1", "sol"), {})
+                    C["twin-solves"] = C.get("twin-solves", 0) + 1
+                    r0 = (s0.get("rc"), s0.get("status"), d0.get("objval") if s0.get("status") == 1 else None)
+                    r1 = (s1.get("rc"), s1.get("status"), d1.get("objval") if s1.get("status") == 1 else None)
+                    C["twin-status:%s" % sf.ST.get(s0.get("status"), s0.get("status"))] = C.get("twin-status:%s" % sf.ST.get(s0.get("status"), s0.get("status")), 0) + 1
+                    # iteration-limit style outcomes depend on the pivot path and are not compared
+                    if r0 != r1 and s0.get("status") in (1, 2, 3, 9) and s1.get("status") in (1, 2, 3, 9):
+                        V.append(("C16|copy|solves-differently:%s-vs-%s" % (sf.ST.get(s0.get("status"), s0.get("status")), sf.ST.get(s1.get("status"), s1.get("status"))),
+                                  "`%s` on the unsolved original gives (rc,status,value)=%r, on its unsolved copy %r" % (case.script[t0], r0, r1)))
             if cmd in vscript.EDITS:
                 C["edits"] = C.get("edits", 0) + 1
                 if ev.get("_model_error") or ev.get("rc") != 0:
